@@ -25,7 +25,7 @@ func c18Counts(tier string) int64 {
 func init() {
 	Register(&Prop{
 		ID:          "C18",
-		Rule:        "workspaces of 1-3 journals from G; account and commodity declarations placed in the current file, an included file, a sibling file that nothing includes, or nowhere (declarations of exact accounts and of parent accounts are injected so that 'below a declared account' occurs); every file is opened under each of the 8 combinations of the three diagnostics settings (fresh server with initializationOptions, or one server reconfigured through workspace/configuration), with and without workspace root. Oracle from the model over the scope: if >=1 account is declared, exactly the postings whose account is not declared, not below a declared account (declared + ':' prefix) and not under assets/liabilities/equity/expenses/revenues/income (any case) are warned about; if >=1 commodity is declared, each transaction carries one warning per distinct undeclared non-empty commodity among its amounts, costs and assertions; a switched-off kind is absent and the multiset of all other codes is identical across the 8 combinations. Non-trivial = document with >=1 expected warning; distinct by workspace hash.",
+		Rule:        "workspaces of 1-3 journals from G; account and commodity declarations placed in the current file, an included file, a sibling file that nothing includes, or nowhere (declarations of exact accounts and of parent accounts are injected so that 'below a declared account' occurs); every file is opened under each of the 8 combinations of the three diagnostics settings (fresh server with initializationOptions, or one server reconfigured through workspace/configuration), with and without workspace root. Oracle from the model over the scope: if >=1 account is declared, exactly the postings whose account is not declared, not below a declared account (declared + ':' prefix) and not under assets/liabilities/equity/expenses/revenues/income (any case) are warned about; if >=1 commodity is declared, each transaction carries one warning per distinct undeclared non-empty commodity among its amounts, costs and assertions; a switched-off kind is absent and the multiset of all other codes is identical across the 8 combinations. A tenth of the cases are declaration histories with a workspace root: declarations reached through one open document's include must neither leak into another document nor outlive the include line; a twentieth are membership histories: the include line that reaches the only declaring member file (from the root or from a file in the middle) is removed and restored by an edit that touches no declaration, and the warnings of a third document are due / gone after each step. Non-trivial = document with >=1 expected warning; distinct by workspace hash.",
 		Notes:       []string{"when the only declarations live in a sibling file that the root journal does not include, the presence of warnings is not judged (both readings of 'its workspace' are possible); the settings clauses still are"},
 		Cases:       c18Counts,
 		MustObserve: []string{"documents", "expected_account_warnings", "expected_commodity_warnings", "setting_combinations"},
@@ -140,7 +140,109 @@ func c18History(c *Ctx, idx int64) {
 	step("change side.journal: include directive removed", pub, ok, both)
 }
 
+// c18Membership: declarations of a file that is a member of the root's include tree count exactly
+// as long as an include path reaches it: when the include line that reaches the only declaring
+// file is removed (an edit that touches no declaration), the warnings are due; when it comes back,
+// they go away again.
+func c18Membership(c *Ctx, idx int64) {
+	r := c.RNG(idx, 11)
+	dir := filepath.Join(c.Dir, fmt.Sprintf("m%d", idx))
+	os.MkdirAll(dir, 0o755)
+	defer os.RemoveAll(dir)
+	acct := Pick(r, []string{"bank", "broker", "wallet2", "Konto"})
+	cm := Pick(r, []string{"EUR", "BTC", "hours", "₽"})
+	viaMid := r.Bool()
+	rootTx := "2019-01-01 opening\n    assets:cash  5 USD\n    equity:opening\n"
+	head := "account assets:cash\ncommodity USD\n"
+	body := fmt.Sprintf("2019-02-02 side\n    %s:checking  5 %s\n    assets:cash  -5 %s\n", acct, cm, cm)
+	// the document whose include line is edited: the root itself, or a file in the middle
+	editName, withInc, withoutInc := "main.journal", head+"include decl.journal\ninclude use.journal\n\n"+rootTx, head+"include use.journal\n\n"+rootTx
+	if viaMid {
+		os.WriteFile(filepath.Join(dir, "main.journal"), []byte(head+"include mid.journal\ninclude use.journal\n\n"+rootTx), 0o644)
+		editName, withInc, withoutInc = "mid.journal", "include decl.journal\n\n2019-01-05 mid\n    assets:cash  1 USD\n    equity:opening\n", "\n\n2019-01-05 mid\n    assets:cash  1 USD\n    equity:opening\n"
+	}
+	os.WriteFile(filepath.Join(dir, editName), []byte(withInc), 0o644)
+	os.WriteFile(filepath.Join(dir, "decl.journal"), []byte("account "+acct+"\ncommodity "+cm+"\n"), 0o644)
+	os.WriteFile(filepath.Join(dir, "use.journal"), []byte(body), 0o644)
+	s := NewSession(dir, SessOpt{Root: true})
+	s.Drain()
+	c.Count("membership_cases", 1)
+	c.Nontrivial(HashStr(fmt.Sprint("c18m", acct, cm, viaMid, idx%7)))
+	warnings := func(pub *protocol.PublishDiagnosticsParams) []string {
+		var out []string
+		if pub != nil {
+			for _, d := range pub.Diagnostics {
+				if k := CodeOf(d); k == "UNDECLARED_ACCOUNT" || k == "UNDECLARED_COMMODITY" {
+					out = append(out, k+"|"+d.Message)
+				}
+			}
+		}
+		sort.Strings(out)
+		return out
+	}
+	both := []string{"UNDECLARED_ACCOUNT|account '" + acct + ":checking' is not declared", "UNDECLARED_COMMODITY|commodity '" + cm + "' has no directive"}
+	sort.Strings(both)
+	var trace []string
+	use, edit := s.URI("use.journal"), s.URI(editName)
+	text := body
+	check := func(what string, want []string) bool {
+		trace = append(trace, what)
+		// re-analyse use.journal the way an editor would: touch it
+		text += "\n"
+		have := s.Stub.PubCount(use)
+		s.ChangeFull(use, text)
+		pub, ok := s.WaitPub(use, have)
+		if !ok {
+			c.Inconclusive("no publish in the membership history")
+			return false
+		}
+		if got := warnings(pub); fmt.Sprint(got) != fmt.Sprint(want) {
+			kind := "missing-warning(membership)"
+			if len(got) > len(want) {
+				kind = "spurious-warning(membership)"
+			}
+			c.Violate(Violation{Kind: kind, Sig: "C18:" + kind + "|root|decl=included", Pool: "clean",
+				Detail:  fmt.Sprintf("after %v: undeclared warnings of use.journal %v, expected %v (decl.journal alone declares %q and %q and is reached through the include line of %s)", trace, got, want, acct, cm, editName),
+				Witness: map[string]any{"steps": trace, "edited_document": editName, "with_include": withInc, "without_include": withoutInc, "use.journal": body}})
+			return false
+		}
+		return true
+	}
+	if _, ok := s.OpenWait(use, text); !ok {
+		c.Inconclusive("no publish in the membership history")
+		return
+	}
+	if !check("open use.journal", nil) {
+		return
+	}
+	s.OpenWait(edit, withInc)
+	if !check("open "+editName, nil) {
+		return
+	}
+	rounds := r.Range(1, 2)
+	for k := 0; k < rounds; k++ {
+		have := s.Stub.PubCount(edit)
+		s.ChangeFull(edit, withoutInc)
+		s.WaitPub(edit, have)
+		s.Drain()
+		if !check("change "+editName+": the include line of decl.journal removed", both) {
+			return
+		}
+		have = s.Stub.PubCount(edit)
+		s.ChangeFull(edit, withInc)
+		s.WaitPub(edit, have)
+		s.Drain()
+		if !check("change "+editName+": the include line is back", nil) {
+			return
+		}
+	}
+}
+
 func runC18(c *Ctx, idx int64) {
+	if idx%20 == 8 {
+		c18Membership(c, idx)
+		return
+	}
 	if idx%10 == 9 {
 		c18History(c, idx)
 		return
